@@ -31,6 +31,7 @@ type rnode struct {
 	stub     *inst.AnceStub
 	st       *state.State
 	mem      *storage.MemStorage
+	rs       *rendezStore
 	sw       *switchr.Switch
 	pe       *peering.Peering
 	ro       *router.Router
@@ -85,7 +86,8 @@ func (w *rworld) addNode(name string, store config.Store, id *m.Address) (*rnode
 	n.tun = &tun.Device{RecvRaw: make(chan []byte, 64), SendRaw: make(chan []byte, 256), SendFrame: make(chan frame.Frame, 256)}
 	n.stub = &inst.AnceStub{VersionStub: "verif", ConfigStub: cfg, IdentityStub: id, FrameBuilderStub: n.builder, TunDeviceStub: n.tun}
 	n.mem = storage.NewMemStorage()
-	n.st = state.New(n.stub, n.mem)
+	n.rs = newRendezStore(n.mem)
+	n.st = state.New(n.stub, n.rs)
 	n.stub.StateStub = n.st
 	n.upstream = make(chan frame.Frame, 4096)
 	n.sw = switchr.New(n.stub, n.upstream)
